@@ -54,6 +54,61 @@ def build(cid, t, st, named=None, solve=None, seq=None, second=None):
     return cb
 
 
+def widths_tree(rng, widths, pl=1):
+    """a deal observed by player pl only: after outcome j that player moves at an infoset of width widths[j]; the other
+    player then guesses (one infoset spanning everything, or one per own action count) and random payoffs follow"""
+    from ..gen import tree_stats
+    other = 3 - pl
+    v = rng.choice([2, 3])
+
+    def guess(info):
+        return {"p": other, "i": info, "a": [[g + 1, {"t": f2b(rng.choice([-3.0, -1.0, 0.0, 0.5, 2.0, 4.0]) + rng.random())}] for g in range(v)]}
+    outs = []
+    for j, w in enumerate(widths):
+        outs.append([f2b(rng.choice([1.0, 2.0, 0.5])), {"p": pl, "i": 10 + j, "a": [[a + 1, guess(500)] for a in range(w)]}])
+    t = {"c": None, "o": outs}
+    return t, tree_stats(t)
+
+
+def exact_offset_tree(rng, offset):
+    """small integer payoffs around a common offset, no chance moves except (sometimes) one fair coin at the root"""
+    from ..gen import tree_stats
+
+    def shift(n):
+        if "t" in n:
+            return {"t": f2b(float(round(b2f(n["t"]))) + offset)}
+        if "o" in n:
+            return {"c": n["c"], "o": [[w, shift(c)] for w, c in n["o"]]}
+        return {"p": n["p"], "i": n["i"], "a": [[a, shift(c)] for a, c in n["a"]]}
+    while True:
+        t, _ = gen_tree(rng, max_nodes=rng.choice([12, 25, 40]), max_depth=rng.choice([3, 4, 5]), p_share=0.6,
+                        max_actions=rng.choice([2, 3]), chance_share=0.0)
+        if _has_chance(t):
+            continue
+        multi, _s = infosets_of(t)
+        if multi[1] and multi[2]:
+            break
+    t = shift(t)
+    if rng.random() < 0.5:
+        # a fair coin nobody observes in front of two copies that differ in one payoff
+        import copy
+        t2 = copy.deepcopy(t)
+        leaf = t2
+        while "t" not in leaf:
+            leaf = (leaf.get("a") or leaf.get("o"))[-1][1]
+        leaf["t"] = f2b(b2f(leaf["t"]) + rng.choice([1.0, -2.0, 3.0]))
+        t = {"c": None, "o": [[f2b(1.0), t], [f2b(1.0), t2]]}
+    return t, tree_stats(t)
+
+
+def _has_chance(n):
+    if "t" in n:
+        return False
+    if "o" in n:
+        return True
+    return any(_has_chance(c) for _, c in n["a"])
+
+
 def jackpot_tree(rng):
     """a decision that is reached with probability ~1e-17..1e-30 but whose payoffs are of the order of 1/reach:
     its contribution to the best-response value is of order one although its reach is below machine epsilon"""
@@ -84,6 +139,20 @@ def generate(rng, tier, n):
         t, st = hidden_deal_tree(rng, outcomes=rng.choice([2, 3, 4]), depth=rng.choice([3, 4]), actions=2)
         cases.append(build(cid, t, st, named=random_named(rng, t, rng.choice(["dirichlet", "dirichlet", "zeros", "uniform"])),
                            seq=rng if rng.random() < 0.3 else None, second=rng))
+        cid += 1
+    # infosets of unequal widths whose first width is the mean width (3,2,4 / 4,2,6 / ...): a row layout that assumes
+    # equal widths "when the length fits" cuts the strategy vector at the wrong offsets
+    for k in range(max(6, n // 40)):
+        t, st = widths_tree(rng, rng.choice([(3, 2, 4), (4, 2, 6), (3, 4, 2), (3, 2, 4, 3), (4, 6, 2), (2, 1, 3), (3, 5, 1)]), pl=1 + k % 2)
+        cases.append(build(cid, t, st, named=random_named(rng, t, rng.choice(["dirichlet", "dirichlet", "pure"])), second=rng))
+        cid += 1
+    # exact arithmetic: integer payoffs around a large common offset, pure profiles, at most one fair coin at the root:
+    # every intermediate of every correct evaluation order is exactly representable, so the reported numbers must be
+    # exactly the rational ones (no tolerance): a regret of 1 next to utilities of 2^48 is not rounding noise
+    for k in range(max(6, n // 40)):
+        t, st = exact_offset_tree(rng, rng.choice([2.0 ** 48, -2.0 ** 48, 2.0 ** 45, 2.0 ** 50, 0.0]))
+        cases.append(build(cid, t, st, named=random_named(rng, t, "pure", scale=False), second=None))
+        cases[-1].meta["exact"] = True
         cid += 1
     while len(cases) < n:
         t, st = gen_tree(rng, max_nodes=rng.choice([8, 20, 40, 70]), max_depth=rng.choice([3, 5, 7]),
@@ -144,6 +213,8 @@ def _judge(cb, named_ok, info_ok, where):
     lo, hi = oracle.payoff_range(cb.tree)
     scale = max(1.0, min(max(abs(lo), abs(hi)), oracle.payoff_mass(cb.tree) * 16))
     tol = 1e-9 * scale
+    if cb.meta.get("exact"):
+        tol = 0.0      # every intermediate is exactly representable (see generate): the rational value itself is due
     eu = oracle.expected_utility(cb.tree, strat)
     if abs(eu - util) > tol:
         hits.append(("reported utility %r but the expected payoff of the profile is %r" % (util, eu), "utility"))
